@@ -108,6 +108,6 @@ def main(argv):
         hs = corpus() + [gen_history(ck.rng, ck.tier) for _ in range(n)]
     # occa's parsers leak by design ("TODO: Figure out which variables are being deleted"); leaks are not C22's business
     env = {"ASAN_OPTIONS": "detect_leaks=0:abort_on_error=0:exitcode=66:allocator_may_return_null=1"}
-    ck.correspond(hb, db, hs, label="okl-rules", timeout=900, env=env,
+    ck.correspond(hb, db, hs, label="okl-rules", timeout=3600, env=env,
                   nontrivial=lambda h, impl: any(o.startswith("v=") for o in impl))
     ck.finish(META["level_text"])
